@@ -277,6 +277,7 @@ func main() {
 	contractsProved := map[string]bool{}
 	outDir := filepath.Join(verifDir, "out", *prop)
 	cexN := 0
+	replayedRun := map[*ObRun]bool{}
 	reachUnknown := 0
 	nReplayed := 0
 	for _, r := range runs {
@@ -323,6 +324,8 @@ func main() {
 					note := ""
 					if cx.Ghost {
 						note = " replay=none(ghost-parametrised obligation over contracts: the refuted polynomial identity or bound is the finding)"
+					} else if replayedRun[r] {
+						note = " replay=not-repeated(an earlier counterexample of this harness run was already reproduced natively)"
 					} else if !*noReplay {
 						// exact replay first; for abstract models (contract outputs / loop-cut states chosen by the
 						// solver) the real code runs on the model's inputs, then a native search anchored at them
@@ -339,6 +342,7 @@ func main() {
 							break
 						}
 						nReplayed++
+						replayedRun[r] = true
 					}
 					violations = append(violations, fmt.Sprintf("VIOLATION property=%s replay=%s obligation=%q backend=%s%s", *prop, path, full, ob.Solver, note))
 				}
